@@ -707,12 +707,32 @@ func ruleChainRecurrence(c *Ctx, rule string) {
 		})
 		o := p.Origins()
 		okRec := false
-		if bi, ok1 := idx.(*ssa.BinOp); ok1 {
-			if br, ok2 := recArg.(*ssa.BinOp); ok2 && bi.Op == token.ADD && br.Op == token.ADD {
-				k1, c1 := constInt(bi.Y)
-				k2, c2 := constInt(br.Y)
-				okRec = c1 && c2 && k1 == 1 && k2 == 1 && p.lpath(bi.X) == p.lpath(br.X) && strings.HasSuffix(p.lpath(bi.X), "curr")
+		// resolve a value to its defining `x + 1` (looking through captures and single-assignment locals)
+		var incr func(v ssa.Value, d int) (ssa.Value, bool)
+		incr = func(v ssa.Value, d int) (ssa.Value, bool) {
+			if v == nil || d > 4 {
+				return nil, false
 			}
+			v = p.derefLocal(stripConv(v))
+			switch x := v.(type) {
+			case *ssa.BinOp:
+				if k, isC := constInt(x.Y); x.Op == token.ADD && isC && k == 1 {
+					return x.X, true
+				}
+			case *ssa.FreeVar:
+				for _, b := range p.freeVarBindings(x) {
+					if r, ok := incr(b, d+1); ok {
+						return r, true
+					}
+				}
+			}
+			return nil, false
+		}
+		bx, ok1 := incr(idx, 0)
+		rx, ok2 := incr(recArg, 0)
+		if ok1 && ok2 {
+			lb, lr := p.lpath(bx), p.lpath(rx)
+			okRec = lb == lr && strings.HasSuffix(lb, "curr")
 		}
 		c.check(rule, gk+":step", okRec, fmt.Sprintf("the interceptor invoked (index %s) and the recursion argument (%s) are the same value curr+1", o.Of(idx), o.Of(recArg)), p.pos(cl.Pos()))
 		// the invoked interceptor's continuation is the recursive result
